@@ -1180,3 +1180,46 @@ Lemma summarize_scripts_failed initial finished failed exec_failed timed_out :
   0 < failed + exec_failed + timed_out ->
   summarize_scripts initial finished failed exec_failed timed_out = 1.
 Proof. intros H. unfold summarize_scripts. apply N.ltb_lt in H. rewrite H. reflexivity. Qed.
+
+(* ---- success = Pass or Leak: the variables are kept for exactly the successful results *)
+
+Lemma is_success_iff r : is_success r = true <-> r = RPass \/ r = RLeak.
+Proof. destruct r; cbn [is_success]; split; intros H; try discriminate; auto;
+       destruct H as [H|H]; discriminate. Qed.
+
+Lemma finish_script_env_iff_success o r em :
+  finish_script o = (r, em) -> ((exists m, em = Some m) <-> is_success r = true).
+Proof.
+  unfold finish_script. destruct (is_success (o_result o)) eqn:Es.
+  - destruct (read_env o) as [m|]; intros H; injection H as <- <-.
+    + split; [intros _; assumption|eauto].
+    + cbn [is_success]. split; [intros [m H]; discriminate|discriminate].
+  - intros H. injection H as <- <-. rewrite Es. split; [intros [m H]; discriminate|discriminate].
+Qed.
+
+Lemma finish_script_env_iff_pass_or_leak o r em :
+  finish_script o = (r, em) -> ((exists m, em = Some m) <-> (r = RPass \/ r = RLeak)).
+Proof. intros H. rewrite <- is_success_iff. exact (finish_script_env_iff_success o r em H). Qed.
+
+(* a script classified as leaky (exit 0, a descendant still holds a captured pipe) is a
+   success: its variables are kept exactly like those of a plain pass *)
+Lemma finish_script_leak o m :
+  o_result o = RLeak -> read_env o = Some m -> finish_script o = (RLeak, Some m).
+Proof. intros H1 H2. unfold finish_script. rewrite H1, H2. reflexivity. Qed.
+
+(* in a run: the script's variables are handed to the tests iff it ran and its reported
+   result is a success (Pass or Leak) *)
+Lemma run_data_iff_success D d0 defs rules sel outs ss :
+  In ss (run_scripts_ran D d0 defs rules sel outs) ->
+  ((exists m, In (ss, m) (run_data_of D d0 defs rules sel outs)) <->
+   (script_result outs ss = RPass \/ script_result outs ss = RLeak)).
+Proof.
+  intros Hran. rewrite <- is_success_iff. unfold script_result.
+  destruct (finish_script (outs (ss_id ss))) as [r em] eqn:Ef. cbn [fst].
+  rewrite <- (finish_script_env_iff_success _ _ _ Ef). split.
+  - intros [m Hin]. apply run_data_entries in Hin. destruct Hin as [_ [Hs Hr]].
+    unfold finish_script in Ef. rewrite Hs, Hr in Ef. injection Ef as _ <-. eauto.
+  - intros [m ->]. exists m. apply run_data_entries. split; [assumption|].
+    unfold finish_script in Ef. destruct (is_success (o_result (outs (ss_id ss)))); [|discriminate].
+    destruct (read_env (outs (ss_id ss))); [|discriminate]. injection Ef as _ ->. tauto.
+Qed.
